@@ -196,6 +196,12 @@ var scenarios = []scenario{
 		ops:   []scOp{{0, "send", "A"}, {0.2, "send", "A"}, {0.3, "send", "A"}},
 		reply: map[string]float64{"r1": 0.6, "r2": 0.2, "r3": 0.1}, end: 3.0, only: []string{"ws.Write>|1"}, prop: "C02", scale: 4, stall: 0.05,
 		sigs: []string{"two-outstanding", "written-twice", "write-order", "never-concluded"}},
+	// a sender has fetched A's queue and is slow inside Push while A disconnects and the same id connects again: the request must
+	// not end up in the queue of the connection that is gone (accepted, never written, never concluded)
+	{name: "s-send-during-reconnect", server: true, clients: []string{"A"},
+		ops:   []scOp{{0, "send", "A"}, {0.1, "send", "A"}, {0.4, "disconnect", "A"}, {0.6, "connect", "A"}, {0.7, "send", "A"}, {0.8, "send", "A"}},
+		reply: map[string]float64{"r1": -1, "r3": 0.1, "r4": 0.1}, end: 4.0, only: []string{"queue.Push<|1"}, prop: "C01", also: []string{"C11"}, scale: 4,
+		sigs: []string{"never-concluded"}},
 	{name: "s-two-clients", server: true, clients: []string{"A", "B"},
 		ops:   []scOp{{0, "send", "A"}, {0.05, "send", "B"}, {0.5, "send", "A"}, {0.55, "send", "B"}},
 		reply: map[string]float64{"r1": -1, "r2": 0.1, "r3": 0.1, "r4": 0.1}, end: 3.2},
